@@ -403,6 +403,11 @@ def compare(E, op, a, b, node, fr):
             t = z3.BoolVal(a.cid == b.cid)
         elif is_conc(a) and is_conc(b):
             t = z3.BoolVal(a is b)
+        elif (is_byteslike(a) or is_intlike(a)) and (is_byteslike(b) or is_intlike(b)):
+            # identity of immutable values is an implementation detail: some boolean that implies equality
+            idb = E.fresh("same_object", TBool).t
+            E.assume(z3.Implies(idb, eq_term(E, a, b, node, fr)))
+            t = idb
         else:
             raise Unsupported("identity comparison")
         t = z3.simplify(t)
